@@ -28,7 +28,9 @@ sat!(PAll: B1 B2 B3); sat!(PNo1: B2 B3); sat!(PNo2: B1 B3); sat!(PNo3: B1 B2); s
 UNIMOCK_PRELUDE = "impl B1 for ::unimock::Unimock {} impl B2 for ::unimock::Unimock {} impl B3 for ::unimock::Unimock {}\n"
 
 
-def fn_text(name, d, vis="", alt=False):
+def fn_text(name, d, vis="", alt=False, asy=False):
+    if asy:
+        return fn_text(name, d, vis=vis, alt=alt).replace(f"{vis}fn {name}", f"{vis}async fn {name}", 1)
     S = [("alt::B1" if (alt and b == "B2") else b) for b in sorted(d["S"])]
     byvalue = d["byvalue"]
     amp = "" if byvalue else "&"
@@ -51,9 +53,9 @@ def render(c):
     cid = c["case"]
     alt = int(cid) % 2 == 0
     if i["mode"] == "fn":
-        item = fn_text("f", i["fns"][0], alt=alt)
+        item = fn_text("f", i["fns"][0], alt=alt, asy=i["mock"] == "async")
     else:
-        fns = "\n".join("    " + fn_text(f"f{k + 1}", d, vis="pub ", alt=alt) for k, d in enumerate(i["fns"]))
+        fns = "\n".join("    " + fn_text(f"f{k + 1}", d, vis="pub ", alt=alt, asy=i["mock"] == "async") for k, d in enumerate(i["fns"]))
         item = f"pub mod m {{\n    #[allow(unused_imports)] use crate::{{B1, B2, B3, alt}};\n{fns}\n}}"
     probes = []
     for pr in c["probes"]:
